@@ -340,3 +340,89 @@ Proof.
   - exists y. split; [exact Hy|lia].
   - rewrite Hit. apply filter_same. intros z _. lia.
 Qed.
+
+(* ---- max / min over integers: max_by(identity) ; map(first of the list) ---------- *)
+Lemma filter_eq_head (m : Z) (xs : list Z) : In m xs ->
+  exists rest, filter (fun y => y =? m) xs = m :: rest.
+Proof.
+  induction xs as [|x r IH]; intros Hin; [contradiction|]. cbn [filter].
+  destruct (Z.eqb_spec x m) as [->|Hne].
+  - eexists. reflexivity.
+  - destruct Hin as [->|Hin]; [congruence|]. exact (IH Hin).
+Qed.
+
+Lemma first_only_stage (items : list Z) :
+  untag (exec (op_map (@first_only Z)) [Next items; Done])
+  = match items with [] => [Err EXN_NO_ELEMENTS] | x :: _ => [Next x; Done] end.
+Proof. destruct items; reflexivity. Qed.
+
+Theorem max_spec (xs : list Z) t :
+  untag (exec (op_max (pure2 Z.sub)) (events xs t))
+  = match t with
+    | TDone => match xs with
+               | [] => [Err EXN_NO_ELEMENTS]
+               | x :: r => [Next (fold_left Z.max r x); Done]
+               end
+    | TErr e => [Err e]
+    | TNever => []
+    end.
+Proof.
+  unfold op_max. rewrite compose_exec.
+  change (fun x : Z => Ok x) with (pure (fun x : Z => x)).
+  destruct (max_by_spec (fun x : Z => x) xs t) as (items & H1 & H2). rewrite H1.
+  destruct t; [|reflexivity|reflexivity].
+  rewrite first_only_stage. destruct xs as [|x r]; [now subst items|].
+  destruct H2 as (m & Hle & (y & Hy & Hym) & Hit). cbn beta in *. subst y.
+  destruct (filter_eq_head m (x :: r) Hy) as [rest Hf]. rewrite Hit, Hf.
+  (* m is the maximum *)
+  assert (Hm : m = fold_left Z.max r x).
+  { assert (G : forall l a, (forall y, In y (a :: l) -> y <= fold_left Z.max l a)
+                          /\ In (fold_left Z.max l a) (a :: l)).
+    { clear. induction l as [|b l IH]; intros a.
+      - cbn. split; [intros y [<-|[]]; lia|left; reflexivity].
+      - cbn [fold_left]. destruct (IH (Z.max a b)) as [I1 I2]. split.
+        + intros y [<-|[<-|Hy]].
+          * specialize (I1 (Z.max a b) (or_introl eq_refl)). lia.
+          * specialize (I1 (Z.max a b) (or_introl eq_refl)). lia.
+          * apply I1. right. exact Hy.
+        + destruct I2 as [I2|I2].
+          * rewrite <- I2. destruct (Z.max_spec a b) as [[_ ->]|[_ ->]]; [right; left; reflexivity|left; reflexivity].
+          * right. right. exact I2. }
+    destruct (G r x) as [G1 G2]. specialize (Hle _ G2). specialize (G1 _ Hy). lia. }
+  now rewrite Hm.
+Qed.
+
+Theorem min_spec (xs : list Z) t :
+  untag (exec (op_min (pure2 Z.sub)) (events xs t))
+  = match t with
+    | TDone => match xs with
+               | [] => [Err EXN_NO_ELEMENTS]
+               | x :: r => [Next (fold_left Z.min r x); Done]
+               end
+    | TErr e => [Err e]
+    | TNever => []
+    end.
+Proof.
+  unfold op_min. rewrite compose_exec.
+  change (fun x : Z => Ok x) with (pure (fun x : Z => x)).
+  destruct (min_by_spec (fun x : Z => x) xs t) as (items & H1 & H2). rewrite H1.
+  destruct t; [|reflexivity|reflexivity].
+  rewrite first_only_stage. destruct xs as [|x r]; [now subst items|].
+  destruct H2 as (m & Hle & (y & Hy & Hym) & Hit). cbn beta in *. subst y.
+  destruct (filter_eq_head m (x :: r) Hy) as [rest Hf]. rewrite Hit, Hf.
+  assert (Hm : m = fold_left Z.min r x).
+  { assert (G : forall l a, (forall y, In y (a :: l) -> fold_left Z.min l a <= y)
+                          /\ In (fold_left Z.min l a) (a :: l)).
+    { clear. induction l as [|b l IH]; intros a.
+      - cbn. split; [intros y [<-|[]]; lia|left; reflexivity].
+      - cbn [fold_left]. destruct (IH (Z.min a b)) as [I1 I2]. split.
+        + intros y [<-|[<-|Hy]].
+          * specialize (I1 (Z.min a b) (or_introl eq_refl)). lia.
+          * specialize (I1 (Z.min a b) (or_introl eq_refl)). lia.
+          * apply I1. right. exact Hy.
+        + destruct I2 as [I2|I2].
+          * rewrite <- I2. destruct (Z.min_spec a b) as [[_ ->]|[_ ->]]; [left; reflexivity|right; left; reflexivity].
+          * right. right. exact I2. }
+    destruct (G r x) as [G1 G2]. specialize (Hle _ G2). specialize (G1 _ Hy). lia. }
+  now rewrite Hm.
+Qed.
